@@ -23,7 +23,8 @@ RULE = ('cases = (aperture-dependent package in format 1 or 2 with 2..8 aperture
         'distance range, log-distance step, A_V range, 4 sources over all flags) drawn from the quantifier of C02; a '
         'case is non-trivial when the grid has >= 2 trial distances or some theta*d lies beyond the largest aperture; '
         'distinct = distinct canonical hash of the generated inputs')
-REQUIRED_BRANCHES = ['range_other_unit', 'exact_multiple', 'format1', 'format2', 'dmin_eq_dmax', 'multi_distance', 'beyond_largest', 'inside_table',
+REQUIRED_BRANCHES = ['named_in_cube', 'ap_table_other_unit', 'ext_other_unit', 'theta_other_unit', 'same_theta_diff_tables',
+                     'pred_fluxes', 'chi2_big_compared', 'range_other_unit', 'exact_multiple', 'format1', 'format2', 'dmin_eq_dmax', 'multi_distance', 'beyond_largest', 'inside_table',
                      'flux_monotone', 'flux_arbitrary', 'clamp_low', 'clamp_high', 'interior', 'lo_eq_hi',
                      'best_first', 'best_last', 'best_inner', 'limit_violated', 'limit_ok', 'flag4', 'flag0or9',
                      'theta_dmin_on_knot']
@@ -78,7 +79,7 @@ def gen_case(rng, directed=None):
             dmax = dmin * 2
     # log-width an exact multiple of the step (e.g. 1..10 kpc with step 0.25): the ceil() in the grid length is
     # then taken at an exact integer, in the code's float arithmetic too
-    exact = (bool(directed) and len(directed) > 3) or (not directed and rng.random() < 0.06)
+    exact = (bool(directed) and len(directed) > 3 and directed[3] == 'exact') or (not directed and rng.random() < 0.06)
     if exact and rkind != 'single':
         step = rng.choice([0.25, 0.5, 0.125, 0.0625])
         dmin = rng.choice([1., 10., 0.1])
@@ -97,6 +98,23 @@ def gen_case(rng, directed=None):
     if dunit == 'kpc':
         du = [dmin, dmax]
     thetas = [nice(rng, 0.5, 30., 2) for _ in range(nb)]
+    opts = directed[4] if directed and len(directed) > 4 else {}
+    if opts.get('same_theta') or (not directed and rng.random() < 0.15):
+        thetas = [thetas[0]] * nb        # one angular aperture for all bands (tables may still differ)
+    # the aperture radii may be given in any angle unit; the model works with the arcsec floats the code derives
+    theta_unit = opts.get('theta_unit') or ('arcsec' if (directed or rng.random() < 0.6) else rng.choice(['arcmin', 'deg', 'rad']))
+    thetas_given = list(thetas)
+    if theta_unit != 'arcsec':
+        thetas_given = [float('%.3g' % v) for v in (np.array(thetas) * u.arcsec).to(u.Unit(theta_unit)).value]
+        thetas = [float(v) for v in (np.array(thetas_given) * u.Unit(theta_unit)).to(u.arcsec).value]
+    # version 2: some bands may be named filters with their own convolved/<name>.fits (and aperture table)
+    named = [False] * nb
+    if fmt == 2 and rkind != 'on_knot' and (opts.get('named') or (not directed and rng.random() < 0.4)):
+        named = [rng.random() < 0.6 for _ in range(nb)]
+        if not any(named):
+            named[rng.randrange(nb)] = True
+    ap_unit = opts.get('ap_unit') or ('au' if (directed or rkind == 'on_knot' or rng.random() < 0.6) else rng.choice(['pc', 'cm']))
+    ext_unit = opts.get('ext_unit') or ('micron' if (directed or rng.random() < 0.6) else rng.choice(['nm', 'Angstrom', 'cm']))
     # aperture tables: smallest aperture <= theta*dmin (in AU); largest relative to theta*dmax
     def table(theta_lo, theta_hi):
         rmin = theta_lo * dmin * 1000.
@@ -128,10 +146,23 @@ def gen_case(rng, directed=None):
         shared = table(min(thetas), max(thetas))
         if rkind == 'on_knot':
             thetas = [thetas[0]] * nb       # every band sits on the knot
+            thetas_given = [thetas_given[0]] * nb
             shared = table(thetas[0], thetas[0])
-        aps = [shared] * nb
+        aps = [table(thetas[j], thetas[j]) if named[j] else shared for j in range(nb)]
     else:
         aps = [table(t, t) for t in thetas]
+    if ap_unit != 'au':
+        # the tables are stored in `ap_unit`; the model gets the AU floats of the stored numbers
+        stored, back = [], {}
+        for a in aps:
+            key = id(a)
+            if key not in back:
+                st = [float(v) for v in (np.array(a) * u.au).to(u.Unit(ap_unit)).value]
+                back[key] = (st, [float(v) for v in (np.array(st) * u.Unit(ap_unit)).to(u.au).value])
+            stored.append(back[key][0])
+        aps = [back[id(a)][1] for a in aps]
+    else:
+        stored = None
     mono = rng.random() < 0.5
     flux = []      # [band][model][aperture]
     for j in range(nb):
@@ -184,13 +215,20 @@ def gen_case(rng, directed=None):
         sources.append(dict(flags=flags, flux=fl, err=er))
     return dict(fmt=fmt, rkind=rkind, akind=akind, wavs=wavs, tab_w=tw, tab_chi=chi, thetas=thetas, aps=aps,
                 flux=flux, mono=mono, dmin=dmin, dmax=dmax, dunit=dunit, drange_in_unit=du, step=step, av=av,
-                sources=sources)
+                sources=sources, thetas_given=thetas_given, theta_unit=theta_unit, named=named, ap_unit=ap_unit,
+                aps_stored=stored, ext_unit=ext_unit)
 
 
 DIRECTED = [(1, 'inside', 'interior'), (2, 'beyond', 'clamp_low'), (1, 'beyond', 'clamp_high'), (2, 'single', 'lo_eq_hi'),
             (1, 'single', 'wide'), (2, 'inside', 'wide'), (1, 'on_knot', 'wide'), (2, 'on_knot', 'interior'),
             (1, 'mixed', 'interior'), (2, 'mixed', 'clamp_low'), (1, 'inside', 'wide', 'exact'),
-            (2, 'beyond', 'interior', 'exact')]
+            (2, 'beyond', 'interior', 'exact'),
+            (2, 'beyond', 'wide', None, dict(named=True)), (2, 'mixed', 'interior', None, dict(named=True, same_theta=True)),
+            (1, 'beyond', 'wide', None, dict(same_theta=True)), (1, 'beyond', 'interior', None, dict(same_theta=True)),
+            (1, 'inside', 'wide', None, dict(ap_unit='pc')), (2, 'beyond', 'wide', None, dict(ap_unit='cm')),
+            (1, 'mixed', 'wide', None, dict(ext_unit='nm')), (2, 'inside', 'interior', None, dict(ext_unit='Angstrom')),
+            (1, 'inside', 'wide', None, dict(ext_unit='cm')),
+            (1, 'beyond', 'wide', None, dict(theta_unit='arcmin')), (2, 'inside', 'wide', None, dict(theta_unit='deg'))]
 
 
 def gen_cases(seed, tier):
@@ -205,37 +243,93 @@ def names_of(case):
     return ['m%03d' % i for i in range(len(case['flux'][0]))]
 
 
+def ext_numbers(case):
+    """the extinction table, 0.55 micron and the filter wavelengths as numbers in the law's wavelength unit
+    (what Extinction.get_av interpolates in)"""
+    unit = u.Unit(case.get('ext_unit', 'micron'))
+    conv = lambda xs: [float(v) for v in (np.array(xs, dtype=float) * u.micron).to(unit).value]   # noqa: E731
+    return unit, conv(case['tab_w']), conv([0.55])[0], conv(case['wavs'])
+
+
+def write_convolved(case, d, fn, j, names):
+    """convolved/<fn>.fits for band j, aperture table in the case's unit"""
+    import os
+    from sedfitter.convolved_fluxes import ConvolvedFluxes
+    nm = len(names)
+    if case.get('ap_unit', 'au') == 'au':
+        pk.write_convolved(d, fn, case['wavs'][j], names, case['flux'][j], [[0.] * len(case['aps'][j])] * nm,
+                           apertures_au=case['aps'][j])
+        return
+    os.makedirs(os.path.join(d, 'convolved'), exist_ok=True)
+    c = ConvolvedFluxes()
+    c.model_names = np.array(names)
+    c.apertures = np.array(case['aps_stored'][j], dtype=float) * u.Unit(case['ap_unit'])
+    c.central_wavelength = case['wavs'][j] * u.micron
+    c.flux = np.array(case['flux'][j], dtype=float).reshape(nm, -1) * u.mJy
+    c.error = np.zeros((nm, len(case['aps'][j]))) * u.mJy
+    c.write(os.path.join(d, 'convolved', fn + '.fits'), overwrite=True)
+
+
+def make_fitter(case, d, fnames, ext, remove_resolved=False):
+    from sedfitter.fit import Fitter
+    apertures = np.array(case.get('thetas_given', case['thetas']), dtype=float) * u.Unit(case.get('theta_unit', 'arcsec'))
+    drange = np.array(case.get('drange_in_unit') or (case['dmin'], case['dmax']), dtype=float) * u.Unit(case.get('dunit', 'kpc'))
+    with common.quiet():
+        return Fitter(fnames, apertures, d, extinction_law=ext, av_range=tuple(case['av']), distance_range=drange,
+                      use_memmap=False, remove_resolved=remove_resolved)
+
+
 def build(case, d):
     names = names_of(case)
     nm = len(names)
     nb = len(case['wavs'])
-    ext = pk.make_extinction(case['tab_w'], case['tab_chi'])
+    eunit, etab, _, _ = ext_numbers(case)
+    ext = pk.make_extinction(etab, case['tab_chi'], wav_unit=eunit)
+    named = case.get('named') or [False] * nb
     if case['fmt'] == 1:
         pk.write_conf(d, True, logd_step=case['step'])
         fnames = []
         for j, w in enumerate(case['wavs']):
             fn = 'F%d' % j
             fnames.append(fn)
-            pk.write_convolved(d, fn, w, names, case['flux'][j], [[0.] * len(case['aps'][j])] * nm,
-                               apertures_au=case['aps'][j])
+            write_convolved(case, d, fn, j, names)
     else:
         # cube [model][aperture][wavelength]; one extra tabulated wavelength that is not fitted
         wav = list(case['wavs']) + [max(case['wavs']) * 3.]
         nap = len(case['aps'][0])
+        shared = [j for j in range(nb) if not named[j]]
+        j0 = shared[0] if shared else 0
+        nap = len(case['aps'][j0])
         val = np.ones((nm, nap, len(wav)))
-        for j in range(nb):
+        for j in shared:
             val[:, :, j] = np.array(case['flux'][j], dtype=float)
-        pk.write_cube_package(d, names, wav, val, np.zeros_like(val), apertures_au=case['aps'][0],
-                              aperture_dependent=True, logd_step=case['step'])
-        fnames = [w * u.micron for w in case['wavs']]
+        if case.get('ap_unit', 'au') == 'au':
+            pk.write_cube_package(d, names, wav, val, np.zeros_like(val), apertures_au=case['aps'][j0],
+                                  aperture_dependent=True, logd_step=case['step'])
+        else:
+            pk.write_conf(d, True, logd_step=case['step'], version=2)
+            cube = pk.make_cube(names, wav, val, np.zeros_like(val), case['aps'][j0])
+            cube.apertures = np.array(case['aps_stored'][j0], dtype=float) * u.Unit(case['ap_unit'])
+            import os
+            cube.write(os.path.join(d, 'flux.fits'), overwrite=True)
+            pk.write_parameters(d, list(names), {'PAR1': [float(i) for i in range(nm)]})
+        fnames = []
+        for j, w in enumerate(case['wavs']):
+            if named[j]:
+                # a named filter in a cube package: its own convolved/<name>.fits and aperture table
+                write_convolved(case, d, 'F%d' % j, j, names)
+                fnames.append('F%d' % j)
+            else:
+                fnames.append(w * u.micron)
     return fnames, ext, names
 
 
 def model_side(case):
-    line = ['fit3', rat(case['av'][0]), rat(case['av'][1]), rat(0.55), str(len(case['tab_w']))]
-    for w, c in zip(case['tab_w'], case['tab_chi']):
+    _, etab, ev, ewavs = ext_numbers(case)
+    line = ['fit3', rat(case['av'][0]), rat(case['av'][1]), rat(ev), str(len(etab))]
+    for w, c in zip(etab, case['tab_chi']):
         line += [rat(w), rat(c)]
-    line.append(rats(case['wavs']))
+    line.append(rats(ewavs))
     line.append(rats(case['thetas']))
     line.append(str(len(case['wavs'])))
     for j in range(len(case['wavs'])):
@@ -254,6 +348,7 @@ def model_side(case):
     if tag == 'E':
         return dict(error=t.tok())
     nd = t.nat(); ceil_m = float(t.rat()); below_m = float(t.rat())
+    logd = [float(x) for x in t.rats()]
     ns = t.nat()
     srcs = []
     for _ in range(ns):
@@ -263,14 +358,23 @@ def model_side(case):
             rows.append(dict(av=t.rat(), sc=t.rat(), chi2=t.rat(), bi=t.nat(), gap=float(t.rat()),
                              clamp_m=float(t.rat()), lim_m=float(t.rat()), av_scale=float(t.rat()),
                              chi_scale=float(t.rat()), nviol=t.nat(), nlim=t.nat(), fcond=float(t.rat()),
-                             dchi=float(t.rat()), dav=float(t.rat())))
+                             dchi=float(t.rat()), dav=float(t.rat()), pred=[float(x) for x in t.rats()]))
         srcs.append(rows)
-    return dict(error=None, nd=nd, ceil_m=ceil_m, below_m=below_m, srcs=srcs)
+    return dict(error=None, nd=nd, ceil_m=ceil_m, below_m=below_m, srcs=srcs, logd=logd)
 
 
 def describe(case):
-    return ('format %d, bands %r um, theta %r arcsec, distance range [%r, %r] kpc, logd_step %r, A_V range %r'
-            % (case['fmt'], case['wavs'], case['thetas'], case['dmin'], case['dmax'], case['step'], case['av']))
+    return ('format %d (named filters %r), bands %r um, theta %r arcsec (given in %s), aperture tables in %s, extinction law in %s, '
+            'distance range [%r, %r] kpc (given in %s), logd_step %r, A_V range %r'
+            % (case['fmt'], case.get('named'), case['wavs'], case['thetas'], case.get('theta_unit', 'arcsec'),
+               case.get('ap_unit', 'au'), case.get('ext_unit', 'micron'), case['dmin'], case['dmax'],
+               case.get('dunit', 'kpc'), case['step'], case['av']))
+
+
+def case_ks(case):
+    _, etab, ev, ewavs = ext_numbers(case)
+    den = float(np.interp(ev, etab, case['tab_chi']))
+    return [-0.4 * float(np.interp(w, etab, case['tab_chi'], left=0., right=0.)) / den for w in ewavs]
 
 
 def run_case(case):
@@ -284,9 +388,7 @@ def run_case(case):
         branches.add('flux_monotone' if case['mono'] else 'flux_arbitrary')
         on_knot = exp['error'] is None and abs(exp['below_m']) < MARGIN or exp['error'] == 'tooSmall' and case['rkind'] == 'on_knot'
         try:
-            fitter = pk.make_fitter(d, fnames, case['thetas'], ext, case['av'],
-                                    distance_range_kpc=case.get('drange_in_unit') or (case['dmin'], case['dmax']),
-                                    distance_unit=case.get('dunit', 'kpc'), use_memmap=False)
+            fitter = make_fitter(case, d, fnames, ext)
         except Exception as e:      # noqa: BLE001
             if on_knot and 'too small' in str(e):
                 # theta*dmin sits on the smallest aperture: 10**log10(dmin) may round below it
@@ -317,6 +419,18 @@ def run_case(case):
         nd = exp['nd']
         if case.get('dunit', 'kpc') != 'kpc':
             branches.add('range_other_unit')
+        if any(case.get('named') or []):
+            branches.add('named_in_cube')
+        if case.get('ap_unit', 'au') != 'au':
+            branches.add('ap_table_other_unit')
+        if case.get('ext_unit', 'micron') != 'micron':
+            branches.add('ext_other_unit')
+        if case.get('theta_unit', 'arcsec') != 'arcsec':
+            branches.add('theta_other_unit')
+        nbands = len(case['wavs'])
+        if any(case['thetas'][i] == case['thetas'][j] and case['aps'][i][-1] != case['aps'][j][-1]
+               for i in range(nbands) for j in range(i)):
+            branches.add('same_theta_diff_tables')
         if case['dmin'] == case['dmax']:
             branches.add('dmin_eq_dmax')
         else:
@@ -348,9 +462,24 @@ def run_case(case):
                 dr = 1e-13 * e['fcond']
                 ctol = 1e-9 * (1. + abs(c2)) + 1e-13 * e['chi_scale'] + dr * e['dchi']
                 ascale = 1. + abs(float(e['av'])) + e['av_scale'] + 1e9 * dr * e['dav']
+                # the reported scale is log10 of a grid distance, whatever the margins
+                if min(abs(got['sc'][row] - g) for g in exp['logd']) > 1e-9:
+                    return CaseResult(False, detail='source %d model %s: reported scale %r is not log10(d/kpc) of a grid '
+                                                    'distance (grid %r); %s' % (si, nme, float(got['sc'][row]),
+                                                                                 exp['logd'], describe(case)),
+                                      violates=True, branches=branches)
                 if (e['gap'] < MARGIN * (1. + abs(c2)) + 100. * ctol or e['lim_m'] < MARGIN or
                         (lo < hi and e['clamp_m'] < MARGIN * ascale)):
                     relaxed += 1
+                    # which of two (nearly) tied distances wins is within rounding, but the reported chi2 is still
+                    # the grid minimum (this is also what compares rows whose chi2 is >= 1e30 at every distance)
+                    if e['lim_m'] >= MARGIN and abs(got['chi2'][row] - c2) > ctol + min(e['gap'], 1e-6 * (1. + abs(c2))):
+                        return CaseResult(False, detail='source %d model %s: reported chi2 %r, minimum over the grid %r '
+                                                        '(two best distances differ by %.3g); %s'
+                                                        % (si, nme, float(got['chi2'][row]), c2, e['gap'], describe(case)),
+                                          violates=True, branches=branches)
+                    if c2 >= 1e29:
+                        branches.add('chi2_big_compared')
                     continue
                 av_m = float(e['av'])
                 if lo < hi:
@@ -364,6 +493,19 @@ def run_case(case):
                 okav = abs(got['av'][row] - av_m) <= 1e-9 * ascale
                 oksc = abs(got['sc'][row] - float(e['sc'])) <= 1e-9
                 okc2 = abs(got['chi2'][row] - c2) <= ctol
+                # predicted log fluxes stored with the row: av * av_law + log10(model flux at the best distance)
+                mf = got['model_fluxes']
+                okmf = True
+                if mf is not None:
+                    branches.add('pred_fluxes')
+                    ptol = 1e-9 * ascale * max([1.] + [abs(k) for k in case_ks(case)]) + 1e-9 + 1e-12 * e['fcond']
+                    okmf = mf.shape[1] == len(e['pred']) and all(abs(mf[row][j] - e['pred'][j]) <= ptol * (1. + abs(e['pred'][j]))
+                                                                   for j in range(len(e['pred'])))
+                if okav and oksc and okc2 and not okmf:
+                    return CaseResult(False, detail='source %d model %s: FitInfo.model_fluxes %r, expected av*av_law + log10 of the '
+                                                    'model flux at the best distance %r; %s'
+                                                    % (si, nme, [float(x) for x in mf[row]], e['pred'], describe(case)),
+                                      violates=True, branches=branches)
                 if not (okav and oksc and okc2):
                     det = ('source %d (flags %r flux %r err %r) model %s: impl (av, sc, chi2) = (%r, %r, %r); grid optimum of the '
                            'exact model (av, log10 d, chi2) = (%r, %r, %r) at grid index %d of %d (impl grid length %r); '
@@ -396,9 +538,7 @@ def direct_check(case):
     try:
         fnames, ext, names = build(case, d)
         try:
-            fitter = pk.make_fitter(d, fnames, case['thetas'], ext, case['av'],
-                                    distance_range_kpc=case.get('drange_in_unit') or (case['dmin'], case['dmax']),
-                                    distance_unit=case.get('dunit', 'kpc'), use_memmap=False)
+            fitter = make_fitter(case, d, fnames, ext)
         except Exception as e:      # noqa: BLE001
             if case['rkind'] == 'on_knot':
                 return None
